@@ -26,7 +26,9 @@ class Parameter:
 
     def __init__(self, value: float, sigma: float):
         self.samples = [value]  # list to store all samples for the parameter
-        self.sigma = sigma  # the width parameter for the proposal distribution
+        # the width parameter for the proposal distribution (held as a python float, as load() does,
+        # so that widths given as e.g. float32 are not adapted in reduced precision)
+        self.sigma = float(sigma)
         self.rng = default_rng()
 
         # storage for proposal width adjustment algorithm
